@@ -41,6 +41,7 @@ type vfile struct {
 	nRead   int
 	Writes  int
 	openCnt int
+	stale   int // bytes of unknown content left by an earlier, untruncated file
 }
 
 type vbufw struct {
@@ -235,6 +236,24 @@ func (f *vfile) writeCells(cs []vcell) {
 				f.pos += c.size
 				ok = true
 				break
+			}
+		}
+		if !ok && f.pos < f.stale {
+			// writing over the unknown content of a file that existed before and was not truncated
+			over := false
+			for _, o := range f.cells {
+				if o.off < f.pos+c.size && f.pos < o.off+o.size {
+					over = true
+				}
+			}
+			if !over {
+				c.off = f.pos
+				f.cells = append(f.cells, c)
+				f.pos += c.size
+				if f.pos > f.end {
+					f.end = f.pos
+				}
+				ok = true
 			}
 		}
 		if !ok {
@@ -443,6 +462,39 @@ func extOsCreate(fr *frame, args []value) value {
 	return tuple{ex.fabricate(f), nilErr}
 }
 
+// os.OpenFile with concrete flags: truncation and creation as documented.
+func extOsOpenFile(fr *frame, args []value) value {
+	ex := fr.i.ex
+	ex.impure("os.OpenFile")
+	path := args[0].(string)
+	flag := int(asInt64(args[1]))
+	const oAppend, oCreate, oExcl, oTrunc = 0x400, 0x40, 0x80, 0x200
+	old := ex.io().files[path]
+	if flag&oAppend != 0 {
+		panic(Unsupported{"vfs: O_APPEND"})
+	}
+	if old == nil && flag&oCreate == 0 || old != nil && flag&oCreate != 0 && flag&oExcl != 0 {
+		return tuple{(*value)(nil), ioErr(fr, "open")}
+	}
+	if old == nil || flag&oTrunc != 0 {
+		if flag&3 == 0 {
+			panic(Unsupported{"vfs: read-only OpenFile of a new or truncated file"})
+		}
+		return extOsCreate(fr, args[:1])
+	}
+	if ex.ioFails("open " + path) {
+		return tuple{(*value)(nil), ioErr(fr, "open")}
+	}
+	// existing content stays
+	old.pos = 0
+	old.lnRead = 0
+	old.openCnt++
+	if old.stale < old.end {
+		old.stale = old.end
+	}
+	return tuple{ex.fabricate(old), nilErr}
+}
+
 func extOsOpen(fr *frame, args []value) value {
 	ex := fr.i.ex
 	ex.impure("os.Open")
@@ -461,6 +513,7 @@ func init() {
 	for k, v := range map[string]externalFn{
 		"os.Create":             extOsCreate,
 		"os.Open":               extOsOpen,
+		"os.OpenFile":           extOsOpenFile,
 		"encoding/binary.Write": extBinaryWrite,
 		"encoding/binary.Read":  extBinaryRead,
 		"(*os.File).Close": func(fr *frame, args []value) value {
@@ -622,6 +675,9 @@ func init() {
 	}
 	intrinsics["vfTempPath"] = func(fr *frame, args []value) value { return args[0] }
 	intrinsics["vfOutPath"] = func(fr *frame, args []value) value { return args[0] }
+	intrinsics["vfTok"] = func(fr *frame, args []value) value {
+		return sym{fr.i.ex.Input("tok."+args[0].(string), smt.Real), types.Float64}
+	}
 	intrinsics["vfAllocated"] = func(fr *frame, args []value) value { return 0 }
 	intrinsics["vfFaults"] = func(fr *frame, args []value) value {
 		fr.i.ex.impure("vfFaults")
@@ -635,6 +691,14 @@ func init() {
 		return nil
 	}
 	// observation of written files from the harness
+	// vfPreexisting(path, n): before the run a file of n bytes of unknown content exists at path
+	intrinsics["vfPreexisting"] = func(fr *frame, args []value) value {
+		ex := fr.i.ex
+		ex.impure("vfPreexisting")
+		n := int(asInt64(args[1]))
+		ex.io().files[args[0].(string)] = &vfile{path: args[0].(string), end: n, stale: n}
+		return nil
+	}
 	intrinsics["vfFileSize"] = func(fr *frame, args []value) value {
 		f := fr.i.ex.io().files[args[0].(string)]
 		if f == nil {
